@@ -30,7 +30,7 @@ instance (e : KV) : Decidable (EntryWF e) := by unfold EntryWF; exact inferInsta
 def Bounded (c : Cfg) (e : KV) : Prop := c.defTs < two64 ∧ c.txn < two64 ∧ e.ts < two64
 
 /-- is the entry a deletion marker older than the cut-off (refused when the key is absent)? -/
-def stale (c : Cfg) (e : KV) : Prop := isDeleted (maskedFlags e) = true ∧ e.ts < c.cutoff
+def stale (c : Cfg) (e : KV) : Prop := entryDeleted c e = true ∧ e.ts < c.cutoff
 
 theorem norm_wf (c : Cfg) (e : KV) : (norm c e).WF := by
   intro h; simp only [norm] at h ⊢; simp [h]
@@ -211,7 +211,7 @@ def foldMerge (c : Cfg) (es : List KV) (old : Bytes) : Except Header.Err Bytes :
   es.foldlM (fun cur e => mergeStore c e cur) old
 
 theorem merge_absent (c : Cfg) (e : KV) :
-    merge c e [] = if isDeleted (maskedFlags e) = true ∧ e.ts < c.cutoff then .ok none
+    merge c e [] = if entryDeleted c e = true ∧ e.ts < c.cutoff then .ok none
                    else .ok (some (addHeader c e.val e.ts (maskedFlags e))) := by
   unfold merge; simp
 
@@ -244,7 +244,7 @@ theorem mergeStore_join (c : Cfg) (e : KV) (old : Bytes) (ov : Option Ver)
   | none =>
     have := decodeS_none hold
     subst this
-    have hs : ¬ (isDeleted (maskedFlags e) = true ∧ e.ts < c.cutoff) := hst rfl
+    have hs : ¬ (entryDeleted c e = true ∧ e.ts < c.cutoff) := hst rfl
     unfold mergeStore
     rw [merge_absent, if_neg hs]
     exact ⟨_, rfl, by rw [decodeS_addHeader c e hb]; rfl⟩
